@@ -148,7 +148,9 @@ theorem step_change (C : Crypto) (w : World) (op : Op) : ItsChange w op w.its (s
                   (by rw [ho1, ho]) hf (hi ▸ hs)
               · exact .roles p.src p.desc.to p.desc.func (Or.inr ⟨id, p, rfl, hfp, rfl, rfl, rfl⟩) (hk ▸ hk1)
                   hf (hi ▸ hs)
-            · exact .of_eq rfl
+            · split
+              · exact .of_eq hi
+              · exact .of_eq rfl
   | callback id =>
     simp only [step, callback]
     split
